@@ -199,7 +199,12 @@ fn position_cmd(start: &Pos, from_startpos: bool, moves: &[String], rng: &mut Rn
         format!("position fen {}", start.to_fen())
     };
     if moves.is_empty() {
-        head
+        // the keyword with an empty list is a game of zero moves
+        if rng.chance(1, 6) {
+            format!("{head} moves")
+        } else {
+            head
+        }
     } else {
         format!("{head} moves {}", moves.join(" "))
     }
